@@ -6,7 +6,7 @@ Every spy appends the name of each method invoked on it to a shared log and coun
 import collections
 import collections.abc as cabc
 
-LOG = []          # (class name, method name)
+LOG = []          # (class name, method name, id of the spy)
 COUNT = collections.Counter()
 ACTIVE = [True]
 
@@ -18,7 +18,7 @@ def reset():
 
 def _rec(obj, name):
     if ACTIVE[0]:
-        LOG.append((type(obj).__name__, name))
+        LOG.append((type(obj).__name__, name, id(obj)))
         COUNT[name] += 1
 
 
@@ -36,7 +36,7 @@ class CountingIter:
         v = next(self._it)
         if ACTIVE[0]:
             COUNT['item_read'] += 1
-            LOG.append((type(self._owner).__name__, 'iterator.__next__'))
+            LOG.append((type(self._owner).__name__, 'iterator.__next__', id(self._owner)))
         return v
 
 
